@@ -545,18 +545,24 @@ pub fn parse_number<'a, const FORMAT: u128, const IS_PARTIAL: bool>(
     #[cfg(feature = "format")]
     {
         let base_prefix = format.base_prefix();
-        let mut iter = byte.integer_iter();
-        if base_prefix != 0 && iter.read_if_value_cased(b'0').is_some() {
-            // Check to see if the next character is the base prefix.
-            // We must have a format like `0x`, `0d`, `0o`.
+        if base_prefix != 0 {
+            // Check to see if we have a leading `0` and then the base prefix.
+            // We must have a format like `0x`, `0d`, `0o`. If the `0` is not
+            // followed by the base prefix, it is a significant digit and
+            // must not be consumed here.
             // NOTE: The check for empty integer digits happens below so
             // we don't need a redundant check here.
-            is_prefix = true;
-            if iter.read_if_value(base_prefix, format.case_sensitive_base_prefix()).is_some()
-                && iter.is_buffer_empty()
-                && format.required_integer_digits()
+            let mut prefixed = byte.clone();
+            let mut iter = prefixed.integer_iter();
+            if iter.read_if_value_cased(b'0').is_some()
+                && iter.read_if_value(base_prefix, format.case_sensitive_base_prefix()).is_some()
             {
-                return Err(Error::EmptyInteger(iter.cursor()));
+                is_prefix = true;
+                let is_empty = iter.is_buffer_empty();
+                byte = prefixed;
+                if is_empty && format.required_integer_digits() {
+                    return Err(Error::EmptyInteger(byte.cursor()));
+                }
             }
         }
     }
